@@ -278,28 +278,30 @@ def subkeyPublicPairChainCodePair (g : Gen) (pp : Int × Int) (cc : Bytes) (i : 
 
 /-! ### `BIP32Node._subkey`, `subkey`, `subkey_for_path` -/
 
+/-- the two branches of `_subkey` that build the child (`key = self.__class__(**d)`), `idx` being the child number
+with the hardened bit set and `fp` the parent's fingerprint -/
+def subkeyChild (g : Gen) (fuel : Nat) (n : Node) (idx : Int) (hardened : Bool) (fp : Bytes) : Except Err Node :=
+  match n.secretExponent with
+  | none =>
+    if hardened then .error .mismatch
+    else
+      match subkeyPublicPairChainCodePair g n.publicPair n.chainCode idx with
+      | .error e => .error e
+      | .ok (q, cc) => mkNode g n.kind cc (n.depth + 1) fp idx.toNat (.pub (some q))
+  | some se =>
+    match subkeySecretExponentChainCodePair g fuel se n.chainCode idx hardened n.publicPair with
+    | .error e => .error e
+    | .ok (k, cc) => mkNode g n.kind cc (n.depth + 1) fp idx.toNat (.priv k)
+
 /-- `BIP32Node._subkey(i, is_hardened, as_private)` -/
 def subkeyRaw (g : Gen) (fuel : Nat) (n : Node) (i : Int) (hardened asPrivate : Bool) : Except Err Node :=
   if i < 0 then .error .value
   else if i ≥ 0x80000000 then .error .value
   else
-    let idx : Int := if hardened then i + 0x80000000 else i
     match n.fingerprint with
     | .error e => .error e
     | .ok fp =>
-      let child : Except Err Node :=
-        match n.secretExponent with
-        | none =>
-          if hardened then .error .mismatch
-          else
-            match subkeyPublicPairChainCodePair g n.publicPair n.chainCode idx with
-            | .error e => .error e
-            | .ok (q, cc) => mkNode g n.kind cc (n.depth + 1) fp idx.toNat (.pub (some q))
-        | some se =>
-          match subkeySecretExponentChainCodePair g fuel se n.chainCode idx hardened n.publicPair with
-          | .error e => .error e
-          | .ok (k, cc) => mkNode g n.kind cc (n.depth + 1) fp idx.toNat (.priv k)
-      match child with
+      match subkeyChild g fuel n (if hardened then i + 0x80000000 else i) hardened fp with
       | .error e => .error e
       | .ok key => if asPrivate then .ok key else key.publicCopy g
 
